@@ -76,11 +76,19 @@ type vC01Msg struct {
 }
 
 func vC01Hash(b []byte) uint64 {
-	var h uint64
+	// Adler-style checksum, the same as hash_bytes of the model
+	var a, h uint64
 	for _, x := range b {
-		h = (h*16777619 + uint64(x) + 1) % 4294967291
+		a += uint64(x) + 1
+		if a >= 65521 {
+			a -= 65521
+		}
+		h += a
+		if h >= 65521 {
+			h -= 65521
+		}
 	}
-	return h
+	return h*65536 + a
 }
 
 func vC01Payload(s vSx) ([]byte, bool) {
@@ -423,7 +431,7 @@ func vC01Gen(r *vRng, thorough bool) vSx {
 	if r.chance(1, 10) {
 		n = r.rng(9, 30)
 	}
-	budget := 300000 // bytes of payload per case (quick)
+	budget := 140000 // bytes of payload per case (quick)
 	if thorough {
 		budget = 3000000
 	}
@@ -454,31 +462,31 @@ func vC01Gen(r *vRng, thorough bool) vSx {
 			pay = vB(vC01CtlBody(r, typ))
 		default:
 			var ln int
-			switch r.intn(14) {
-			case 0:
+			switch r.intn(40) {
+			case 0, 1, 2:
 				ln = 1
-			case 1:
+			case 3, 4, 5, 6:
 				ln = c - 1
-			case 2:
+			case 7, 8, 9, 10:
 				ln = c
-			case 3:
+			case 11, 12, 13, 14:
 				ln = c + 1
-			case 4:
+			case 15, 16, 17:
 				ln = 2*c - 1
-			case 5:
+			case 18, 19, 20:
 				ln = 2 * c
-			case 6:
+			case 21, 22, 23:
 				ln = 2*c + 1
-			case 7:
+			case 24, 25, 26:
 				ln = r.rng(2, 5)*c + r.rng(-1, 1)
-			case 8:
+			case 27:
 				ln = 65535
-			case 9:
+			case 28:
 				ln = 65536
-			case 10:
+			case 29, 30, 31:
 				ln = r.rng(1, 1000)
-			case 11:
-				if thorough && r.chance(1, 40) {
+			case 32:
+				if thorough && r.chance(1, 20) {
 					ln = 1<<24 - 1
 					budget += ln
 				} else {
@@ -547,7 +555,7 @@ func TestVerifC01(t *testing.T) {
 	for _, c := range k.corpus() {
 		runOne(c)
 	}
-	n := k.N(1200, 6000)
+	n := k.N(600, 6000)
 	for i := 0; i < n; i++ {
 		runOne(vC01Gen(k.rnd, k.thorough()))
 	}
